@@ -266,6 +266,10 @@ impl<'a> Exh<'a> {
                 let v = cview(&r, self.names);
                 if v != refview {
                     self.viol += 1;
+                    if self.viol > 4 {
+                        seq_no += 1;
+                        continue;
+                    }
                     if let Some((m, tie)) = diff_kind(&v, &refview) {
                         let class = if tie {
                             "tensor_chain.gossip.merge/order_dependent_tie"
@@ -304,7 +308,7 @@ impl<'a> Exh<'a> {
                     );
                     let ans = model.ask(&line);
                     self.model_lines += 1;
-                    rep.compare(&format!("{}.model", self.stream), || json!({"line": line}), &imp, &ans);
+                    rep.compare(&self.stream, || json!({"line": line}), &imp, &ans);
                     if rep.samples.len() < 4 && conflict && n >= 3 {
                         rep.sample(json!({"stream": self.stream, "line": line, "answer": imp}));
                     }
@@ -478,6 +482,9 @@ fn main() {
     let mut m = Model::spawn(&args.driver);
     let root = Rng::new(args.seed);
     let t_start = std::time::Instant::now();
+
+    // ---------------------------------------------------------------- corpus (run first)
+    corpus_stream(&mut rep, &mut m, &names);
 
     // ---------------------------------------------------------------- exhaustive streams
     {
@@ -741,6 +748,98 @@ fn main() {
     rep.note("u64 lamport/incarnation counters modelled as Nat (no overflow within 2^64 ticks)");
     rep.note("manager stream: suspicion timers (Instant), flap tracking, signing, ping-req/ack and transport sends are not modelled; only the CRDT effects of Sync/Suspect/Alive/add_peer are compared");
     rep.write(&args.out);
+}
+
+fn parse_upd(w: &str) -> Option<Upd> {
+    let p: Vec<&str> = w.split(':').collect();
+    if p.len() != 4 {
+        return None;
+    }
+    let h = HL.iter().position(|c| p[1].len() == 1 && p[1].starts_with(*c))?;
+    Some(Upd { m: p[0].parse().ok().filter(|m| *m < K)?, h, ts: p[2].parse().ok()?, inc: p[3].parse().ok()? })
+}
+
+/// corpus/C17/*.ops : `conv` scenarios (past failures, hand-written adversarial cases)
+fn corpus_stream(rep: &mut Report, m: &mut Model, names: &[String]) {
+    let mut files: Vec<_> = std::fs::read_dir("corpus/C17").map(|d| d.filter_map(|e| e.ok()).map(|e| e.path()).collect()).unwrap_or_else(|_| vec![]);
+    files.sort();
+    for f in files {
+        if f.extension().and_then(|e| e.to_str()) != Some("ops") {
+            continue;
+        }
+        let text = std::fs::read_to_string(&f).unwrap_or_default();
+        for line in text.lines() {
+            let line = line.trim();
+            if line.is_empty() || line.starts_with('#') {
+                continue;
+            }
+            let words: Vec<&str> = line.split_whitespace().collect();
+            if words.first() != Some(&"conv") {
+                rep.note(&format!("corpus line ignored: {line}"));
+                continue;
+            }
+            let mut batches: Vec<Vec<Upd>> = vec![];
+            let mut okp = true;
+            for w in &words[1..] {
+                if *w == "-" {
+                    batches.push(vec![]);
+                } else {
+                    let b: Vec<Option<Upd>> = w.split(';').map(parse_upd).collect();
+                    if b.iter().any(Option::is_none) {
+                        okp = false;
+                    }
+                    batches.push(b.into_iter().flatten().collect());
+                }
+            }
+            if !okp {
+                rep.note(&format!("corpus line unparsable: {line}"));
+                continue;
+            }
+            // as written: real vs model
+            let mut r = LWWMembershipState::new();
+            let mut ch = vec![];
+            for b in &batches {
+                let st: Vec<GossipNodeState> = b.iter().map(|u| u.real(names)).collect();
+                ch.push(changed_txt(&r.merge(&st), names));
+            }
+            let v = cview(&r, names);
+            let imp = format!("{} | {}", ch.join("/"), view_txt(r.lamport_time(), &v));
+            let ans = m.ask(line);
+            rep.compare("corpus", || json!({"file": f.display().to_string(), "line": line}), &imp, &ans);
+            // every permutation x batching of the flattened updates must give the same registers
+            let mut flat: Vec<Upd> = batches.iter().flatten().copied().collect();
+            flat.sort();
+            let n = flat.len();
+            if n >= 1 && n <= 6 {
+                let mut idx: Vec<usize> = (0..n).collect();
+                // indices into `flat` (sorted, equal elements adjacent => distinct permutations of values)
+                let mut keyed: Vec<usize> = idx.iter().map(|&i| flat.iter().position(|x| *x == flat[i]).unwrap()).collect();
+                idx.clear();
+                loop {
+                    let states: Vec<GossipNodeState> = keyed.iter().map(|&i| flat[i].real(names)).collect();
+                    for mask in 0..(1u32 << (n - 1)) {
+                        let mut rr = LWWMembershipState::new();
+                        for (a, b) in batches_of(n, mask) {
+                            rr.merge(&states[a..b]);
+                        }
+                        let vv = cview(&rr, names);
+                        if let Some((mm, tie)) = diff_kind(&vv, &v) {
+                            let class = if tie { "tensor_chain.gossip.merge/order_dependent_tie" } else { "tensor_chain.gossip.merge/order_dependent" };
+                            rep.violation(class, "corpus scenario: a re-ordered / re-batched delivery of the same updates ends in different registers",
+                                json!({"file": f.display().to_string(), "replica_A": line,
+                                       "replica_B_batches": batches_of(n, mask).iter().map(|&(a, b)| batch_txt(&keyed[a..b].iter().map(|&i| flat[i]).collect::<Vec<_>>())).collect::<Vec<_>>(),
+                                       "member": mm, "view_A": regs_txt(&v), "view_B": regs_txt(&vv)}));
+                        }
+                        rep.hit("corpus.delivery_sequences");
+                    }
+                    if !next_permutation(&mut keyed) {
+                        break;
+                    }
+                }
+            }
+            rep.case("corpus", Some(line));
+        }
+    }
 }
 
 fn mgr_answer(g: &GossipMembershipManager, names: &[String]) -> String {
